@@ -156,6 +156,13 @@ def symbolgen_genCode(it, comp, args, kwargs, line):
     if d == 0:
         if req is not None:
             gset(ctx, 'resolved', kenc(req), lift(True))     # the look-up of req produced (at least) this module
+            # req_ok[m]: the module m was (at least once) obtained by looking up an explicitly requested name
+            names = ctx.ghost.get('mibnames_seq')
+            if names is not None and isinstance(req, (str, SStr)):
+                g = gmap(ctx, 'req_ok')
+                hit = z3.Contains(names, z3.Unit(pv.as_term_str(req)))
+                mk_ = kenc(SStr(modname(lift(tree))))
+                ctx.ghost['req_ok'] = VDict(arr=z3.If(hit, z3.Store(g.arr, mk_, lift(True)), g.arr))
         mi = VObj('MibInfo')
         mi.fields['name'] = SStr(modname(lift(tree)))
         mi.fields['imported'] = VSeqIter(tree_imports(lift(tree)), elem='str')
@@ -273,8 +280,8 @@ GHOST_BY_METHOD = {
     'borrower.getData': ['borrow_n', 'borrow_by_name', 'borrow_res'],
     'parse': ['h_empty'],
     '_parser.parse': ['h_empty'],
-    'genCode': ['gen_n', 'gen_by_name', 'gen_info', 'h_alias', 'h_multi', 'h_trees', 'resolved'],
-    '_symbolgen.genCode': ['h_alias', 'h_multi', 'h_trees', 'resolved'],
+    'genCode': ['gen_n', 'gen_by_name', 'gen_info', 'h_alias', 'h_multi', 'h_trees', 'resolved', 'req_ok'],
+    '_symbolgen.genCode': ['h_alias', 'h_multi', 'h_trees', 'resolved', 'req_ok'],
     '_codegen.genCode': ['gen_n', 'gen_by_name', 'gen_info'],
     'fileExists': ['asked_n', 'asked_res', 'asked_cnt', 'fresh_seen'],
     'searcher.fileExists': ['asked_n', 'asked_res', 'asked_cnt', 'fresh_seen'],
@@ -314,7 +321,7 @@ def sp_modname(it, args, kwargs):
 
 def init_ghost(it, env, options=None):
     ctx = it.ctx
-    for g in ('fetch_n', 'fetch_res', 'fetch_cnt', 'fetch_last', 'resolved', 'asked_n', 'asked_res', 'asked_cnt', 'fresh_seen', 'gen_n', 'gen_by_name', 'gen_info', 'borrow_n',
+    for g in ('fetch_n', 'fetch_res', 'fetch_cnt', 'fetch_last', 'resolved', 'req_ok', 'asked_n', 'asked_res', 'asked_cnt', 'fresh_seen', 'gen_n', 'gen_by_name', 'gen_info', 'borrow_n',
               'borrow_by_name', 'borrow_res', 'puts_n', 'put_ok', 'put_failed'):
         ctx.ghost[g] = VDict(arr=pv.EMPTY_ARR)
     ctx.ghost['puts_total'] = 0
